@@ -142,6 +142,26 @@ def check_guards(ctx, cfg):
                 src_ok = zero and from_start and whole and ret_ok and not foreign
                 form = ("bulk move: Vec emptied by set_len(0): %s; N elements copied from the start of its buffer: %s over the whole uninitialised array: %s, which is what is returned: %s; "
                         "nothing that can unwind between emptying, copying and returning: %s" % (zero, from_start, whole, ret_ok, (not foreign) or sorted(set(foreign))))
+            elif not cps and len(sls) == 1 and len(aps) == 1 and len(lens) == 1:
+                # the same as one whole-value read: under len == N, `ptr::read(v.as_ptr() as *const GenericArray<T, N>)` is what is returned and
+                # the Vec is emptied (before or after the read: nothing that can unwind runs between them)
+                sl, ap = sls[0], aps[0]
+                rds = [c for c in a.calls if c.fn in ("core::ptr::read", "core::ptr::read_unaligned") and c.args[0] == ap.ret]
+                if len(rds) == 1:
+                    rd = rds[0]
+                    guard = all(a.prove(c.facts, "Eq", lens[0].ret[1], N) for c in (rd, sl))
+                    zero = sl.args[1] == ("I", Poly.const(0))
+                    whole = bool(rd.targs) and tstr(rd.targs[0]) == tstr(b["impl_self"]["t"] if "t" in b["impl_self"] else b["impl_self"])
+                    ret_ok = bool(oks) and all(g["ops"][0] == rd.ret for g in oks)
+                    foreign = [c.fn for c in a.calls if cl.classify(c, b) == "foreign" and (a.dominates(rd.bb, c.bb) or a.dominates(sl.bb, c.bb)) and c not in (rd, sl)
+                               and not any(a.dominates(g["site"][0], c.bb) for g in oks)]
+                    ok = guard
+                    src_ok = zero and whole and ret_ok and not foreign
+                    cps = rds   # (for the Err-path clause below)
+                    form = ("bulk move: Vec emptied by set_len(0): %s; its buffer read from the start as one GenericArray<T, N> (N elements): %s, which is what is returned: %s; "
+                            "nothing that can unwind between emptying, reading and returning: %s" % (zero, whole, ret_ok, (not foreign) or sorted(set(foreign))))
+                else:
+                    form = "neither builder.extend(v.into_iter()) nor a set_len(0) + bulk copy found"
             else:
                 form = "neither builder.extend(v.into_iter()) nor a set_len(0) + bulk copy found"
             # on the Err paths the Vec must still be untouched: the set_len may not dominate them
